@@ -24,7 +24,8 @@ def probe(lang):
         ctx.add_page(f"{local}:nw", tns, "N<nowiki>{{a}}</nowiki>M")
         ctx.db_conn.commit()
         pages = ["{{%s:a|x}}" % local.lower(), "{{%s:a}}" % local, "{{a|y}}", "{{template:a|z}}", "{{nw}}",
-                 "[[%s:a]] {{ns:%d}}" % (local, tns)]
+                 "[[%s:a]] {{ns:%d}}" % (local, tns), "{{formatnum:87654321.5}}", "{{formatnum:87654321.5}} {{formatnum:1234567}}",
+                 "{{formatnum:987654321}}"]
         for i, p in enumerate(pages):
             ctx.start_page(f"L{i}")
             try:
@@ -35,6 +36,16 @@ def probe(lang):
                 out[p] = {"expand": e, "tree": t, "names": names}
             except Exception as ex:
                 out[p] = {"exception": f"{type(ex).__name__}: {ex}"}
+        # the same pages once more on later pages of the same context: identical results
+        again = {}
+        for i, p in enumerate(pages):
+            ctx.start_page(f"M{i}")
+            try:
+                with quiet_stdout():
+                    again[p] = ctx.expand(p)
+            except Exception as ex:
+                again[p] = f"{type(ex).__name__}: {ex}"
+        out["__repeat__"] = {p: [out[p].get("expand"), again[p]] for p in pages if "expand" in out[p]}
     finally:
         ctx.close_db_conn()
     return out
